@@ -88,7 +88,22 @@ def dependency_cone(vfile: str):
             continue
         cone.add(f)
         todo += deps.get(f, [])
+    dependency_cone.deps = deps
     return sorted(cone)
+
+
+def dependents_of(failed: str, cone):
+    """files of the cone that (transitively) depend on `failed`, itself included"""
+    deps = getattr(dependency_cone, 'deps', {})
+    bad = {failed}
+    changed = True
+    while changed:
+        changed = False
+        for f in cone:
+            if f not in bad and any(d in bad for d in deps.get(f, [])):
+                bad.add(f)
+                changed = True
+    return bad
 
 
 STMT = re.compile(r'^\s*(Theorem|Lemma|Corollary|Example|Fact|Proposition)\s+([A-Za-z0-9_\']+)', re.M)
